@@ -178,8 +178,13 @@ type p1Claims P1Claims
 func (c *P1Claims) UnmarshalCBOR(buf []byte) error {
 	c.Profile = nil // clear profile to make sure we take it from buf
 
+	buf, err := dropKeysBeyondInt64(buf)
+	if err != nil {
+		return fmt.Errorf("CBOR decoding of PSA claims failed: %w", err)
+	}
+
 	// cast prevents the decoder invoking this method again
-	err := dm.Unmarshal(buf, (*p1Claims)(c))
+	err = dm.Unmarshal(buf, (*p1Claims)(c))
 	if err != nil {
 		return fmt.Errorf("CBOR decoding of PSA claims failed: %w", err)
 	}
